@@ -288,7 +288,7 @@ class CFG(object):
         if any(test(c) for c in calls_in(s)):
           out.append(n); break
     return out
-  def interval (self, weight, exc=False, start=None, stop=None):
+  def interval (self, weight, exc=False, start=None, stop=None, avoid=()):
     """(lo, hi) number of effects on any path start->stop, hi capped at 2
     (2 = 'many').  weight(node) -> int or (lo,hi).  Paths ending in the raise
     exit are ignored unless stop says otherwise. None if stop unreachable."""
@@ -307,7 +307,7 @@ class CFG(object):
     while changed and it < 200:
       changed = False; it += 1
       for n in order:
-        if n is start: continue
+        if n is start or n in avoid: continue
         ins = [(lo[p], hi[p]) for p, l in n.pred if p in lo and (exc or l != 'exc')]
         if not ins: continue
         wl, wh = w(n)
